@@ -11,6 +11,7 @@ mod fam_core;
 mod fam_fn;
 mod fam_match;
 mod fam_err;
+mod fam_types;
 
 use common::Args;
 
@@ -60,6 +61,19 @@ fn main() {
             "C04 families: 9 fault kinds x 12 fault sites (inline, call depth 1/3, method, each/fold callbacks, generator, @+, list/string/call/map construction) x 7 handler structures (catch, finally, typed chains in all orders, nested matching/rethrowing) x 4 result uses; try/catch/finally blocks left by fall-through/return/break/continue/throw inside a loop inside a function; errors caught inside open string/list/tuple/map/call constructions; no-error paths. After every run the VM's internal stacks must be empty (hook H1)",
             &[],
         ),
+        "progmc-types" => {
+            let on = run::RunCfg::default();
+            let off = run::RunCfg { type_checks: false, ..run::RunCfg::default() };
+            progmc::run_profile_cfgs(
+                &args,
+                vec![on, off],
+                &fam_types::generate,
+                &fam_types::classify,
+                None,
+                "C16 family: 13 hint positions (let, multi-let, typed wildcard, for arguments, function arguments incl. nested, return types on implicit/explicit/early return, generator yield types, match arms incl. nested and map patterns, typed catch) x 18 hint names x optional/non-optional x 18 runtime values (every value kind, objects with @type and @base chains of depth 1 and 2, callable objects); every program compiled and run with enable_type_checks on AND off, the reference interpreter run in the same mode",
+                &[],
+            )
+        }
         other => {
             eprintln!("unknown engine {other}");
             2
